@@ -1089,4 +1089,751 @@ theorem encodeAll_eq_encodeVals (ops : List Op) : encodeAll ops = encodeVals (op
   | cons o os ih =>
     cases o <;> simp [encodeAll, opsVals, encodeVals, Op.encode, ih]
 
+/-! ## Streams that end in the middle of a value -/
+
+theorem fillLoop_eof (frag : Frag) (n : Nat) (r : Recv) (hi : RInv r) (hn : r.rs + n ≤ readBufSize)
+    (hshort : r.unread.size < n) : r.fillLoop frag n = .error .eof := by
+  fun_induction Recv.fillLoop frag n r with
+  | case1 r h rem hr => rfl
+  | case2 r h cap rem hr hc =>
+    exfalso
+    simp only [cap] at hc
+    omega
+  | case3 r h cap rem hr hc got ih =>
+    have hgot : 1 ≤ got ∧ got ≤ cap ∧ got ≤ rem := by simp only [got]; omega
+    have hpl := hi.pos_le
+    have hbl := hi.buf_le
+    have hrl := hi.rs_le
+    have hsz : (r.pend.extract r.pos (r.pos + got)).size = got := by
+      simp only [ByteArray.size_extract]; simp only [rem] at hgot; omega
+    have hi' : RInv { r with buf := r.buf ++ r.pend.extract r.pos (r.pos + got),
+                             pos := r.pos + got, nread := r.nread + 1,
+                             recvd := r.recvd + got, rlog := mix64 r.rlog cap got } := by
+      constructor
+      · simp only [ByteArray.size_append]; omega
+      · simp only [ByteArray.size_append, hsz]; simp only [cap] at hgot; omega
+      · simp only [rem] at hgot; simp only; omega
+    apply ih hi' hn
+    rw [size_unread] at hshort ⊢
+    simp only [ByteArray.size_append, hsz]
+    simp only [rem] at hgot
+    omega
+  | case4 r h =>
+    exfalso
+    rw [size_unread] at hshort
+    omega
+
+theorem fill_eof (frag : Frag) (n : Nat) (r : Recv) (hi : RInv r) (hn : n ≤ readBufSize)
+    (hshort : r.unread.size < n) : r.fill frag n = .error .eof := by
+  unfold Recv.fill
+  have hrl := hi.rs_le
+  by_cases h : r.rs < r.buf.size
+  · simp only [h, if_true]
+    apply fillLoop_eof
+    · exact ⟨Nat.zero_le _, by simp only [ByteArray.size_extract]; have := hi.buf_le; omega, hi.pos_le⟩
+    · simpa using hn
+    · rw [size_unread] at hshort ⊢
+      simp only [ByteArray.size_extract]
+      omega
+  · simp only [h, if_false]
+    apply fillLoop_eof
+    · exact ⟨Nat.zero_le _, by simp, hi.pos_le⟩
+    · simpa using hn
+    · rw [size_unread] at hshort ⊢
+      simp only [ByteArray.size_empty]
+      omega
+
+theorem ensure_eof (frag : Frag) (n : Nat) (r : Recv) (hi : RInv r) (hn : n ≤ readBufSize)
+    (hshort : r.unread.size < n) : r.ensure frag n = .error .eof := by
+  unfold Recv.ensure
+  split
+  · exact fill_eof frag n r hi hn hshort
+  · exfalso
+    rw [size_unread] at hshort
+    omega
+
+theorem recvBE_eof (frag : Frag) (k : Nat) (r : Recv) (hi : RInv r) (hk : k ≤ readBufSize)
+    (hshort : r.unread.size < k) : r.recvBE frag k = .error .eof := by
+  unfold Recv.recvBE
+  rw [ensure_eof frag k r hi hk hshort]
+
+theorem recvByte_eof (frag : Frag) (r : Recv) (hi : RInv r)
+    (hshort : r.unread.size < 1) : r.recvByte frag = .error .eof := by
+  unfold Recv.recvByte
+  rw [ensure_eof frag 1 r hi (by simp [readBufSize]) hshort]
+
+/-- `k` buffered-or-pending bytes are always received, whatever they are. -/
+theorem recvBE_any (frag : Frag) (k : Nat) (r : Recv) (hi : RInv r) (hk : k ≤ readBufSize)
+    (hav : k ≤ r.unread.size) :
+    ∃ r', r.recvBE frag k = .ok (decodeBE (r.unread.extract 0 k), r') ∧ RInv r' ∧
+      r'.unread = r.unread.extract k r.unread.size ∧ Acct r r' := by
+  obtain ⟨r1, e1, i1, u1, av1, ac1⟩ := ensure_spec frag k r hi hk hav
+  obtain ⟨t1, t2, t3, t4⟩ := take_spec k r1 i1 av1 (r.unread.extract 0 k)
+    (r.unread.extract k r.unread.size) (by simp only [ByteArray.size_extract]; omega)
+    (by rw [u1, ← extract_split r.unread 0 k r.unread.size (Nat.zero_le _) hav,
+          ByteArray.extract_zero_size])
+  refine ⟨(r1.take k).2, ?_, t2, t3, ac1.trans t4⟩
+  unfold Recv.recvBE
+  rw [e1]
+  simp only
+  rw [show r1.take k = ((r1.take k).1, (r1.take k).2) from rfl, t1]
+
+theorem recvDataLoop_eof (frag : Frag) (len read : Nat) (acc : ByteArray) (r : Recv) (hi : RInv r)
+    (hshort : r.unread.size < len - read) : r.recvDataLoop frag len read acc = .error .eof := by
+  fun_induction Recv.recvDataLoop frag len read acc r with
+  | case1 read acc r hlt e he =>
+    split at he
+    · by_cases hs : r.unread.size < min (len - read) readBufSize
+      · rw [fill_eof frag _ r hi (Nat.min_le_right _ _) hs] at he
+        cases he
+        rfl
+      · obtain ⟨r', e', _⟩ := fill_spec frag (min (len - read) readBufSize) r hi (Nat.min_le_right _ _)
+          (by omega)
+        rw [e'] at he
+        cases he
+    · cases he
+  | case2 read acc r hlt r1 he avail ha =>
+    exfalso
+    split at he
+    · by_cases hs : r.unread.size < min (len - read) readBufSize
+      · rw [fill_eof frag _ r hi (Nat.min_le_right _ _) hs] at he
+        cases he
+      · obtain ⟨r', e', i', u', av', _⟩ := fill_spec frag (min (len - read) readBufSize) r hi
+          (Nat.min_le_right _ _) (by omega)
+        rw [e'] at he
+        cases he
+        simp only [avail, readBufSize] at ha av'
+        omega
+    · cases he
+      simp only [avail] at ha
+      omega
+  | case3 read acc r hlt r1 he avail ha ih =>
+    have h1 : RInv r1 ∧ r1.unread = r.unread := by
+      split at he
+      · by_cases hs : r.unread.size < min (len - read) readBufSize
+        · rw [fill_eof frag _ r hi (Nat.min_le_right _ _) hs] at he
+          cases he
+        · obtain ⟨r', e', i', u', av', ac'⟩ := fill_spec frag (min (len - read) readBufSize) r hi
+            (Nat.min_le_right _ _) (by omega)
+          rw [e'] at he
+          cases he
+          exact ⟨i', u'⟩
+      · cases he
+        exact ⟨hi, rfl⟩
+    obtain ⟨i1, u1⟩ := h1
+    have hav : avail ≤ r1.buf.size - r1.rs ∧ avail ≤ len - read ∧ 0 < avail := by
+      simp only [avail] at ha ⊢; omega
+    have hrs := i1.rs_le
+    apply ih ⟨by simp only; omega, i1.buf_le, i1.pos_le⟩
+    have hsz := size_unread r1
+    rw [u1] at hsz
+    rw [size_unread]
+    simp only
+    omega
+  | case4 read acc r hlt =>
+    exfalso
+    omega
+
+theorem recvSizesLoop_eof (frag : Frag) (count : Nat) (r : Recv) (hi : RInv r)
+    (hshort : r.unread.size < 4 * count) : r.recvSizesLoop frag count = .error .eof := by
+  induction count generalizing r with
+  | zero => omega
+  | succ k ih =>
+    simp only [Recv.recvSizesLoop]
+    by_cases h4 : r.unread.size < 4
+    · rw [recvBE_eof frag 4 r hi (by simp [readBufSize]) h4]
+    · obtain ⟨r1, e1, i1, u1, _⟩ := recvBE_any frag 4 r hi (by simp [readBufSize]) (by omega)
+      rw [e1]
+      simp only
+      rw [ih r1 i1 (by rw [u1]; simp only [ByteArray.size_extract]; omega)]
+
+theorem size_encSizes (l : List Nat) : (encSizes l).size = 4 * l.length := by
+  induction l with
+  | nil => simp [encSizes]
+  | cons x xs ih => simp only [encSizes, ByteArray.size_append, size_be, ih, List.length_cons]; omega
+
+/-- the first `k` bytes of a proper prefix `p` (with `k ≤ |p|`) of `h ++ t`, `|h| = k`, are `h` -/
+theorem prefix_head (p q h t : ByteArray) (hpq : p ++ q = h ++ t) (hk : h.size ≤ p.size) :
+    p.extract 0 h.size = h := by
+  have h1 : (p ++ q).extract 0 h.size = p.extract 0 h.size := extract_append_prefix p q 0 h.size hk
+  rw [← h1, hpq]
+  exact ByteArray.extract_append_eq_left rfl
+
+theorem recvData_eof (frag : Frag) (d : ByteArray) (hd : d.size < 2 ^ 32) (r : Recv) (hi : RInv r)
+    (p q : ByteArray) (hp : p.size < (be 4 d.size ++ d).size) (hpq : p ++ q = be 4 d.size ++ d)
+    (hu : r.unread = p) : r.recvData frag = .error .eof := by
+  unfold Recv.recvData
+  simp only [ByteArray.size_append, size_be] at hp
+  by_cases h4 : p.size < 4
+  · rw [recvBE_eof frag 4 r hi (by simp [readBufSize]) (by rw [hu]; exact h4)]
+  · obtain ⟨r1, e1, i1, u1, _⟩ := recvBE_any frag 4 r hi (by simp [readBufSize]) (by rw [hu]; omega)
+    rw [e1]
+    simp only
+    have hh : p.extract 0 4 = be 4 d.size := by
+      have := prefix_head p q (be 4 d.size) d hpq (by simp; omega)
+      simpa using this
+    rw [hu, hh, decodeBE_be, Nat.mod_eq_of_lt (by simpa using hd)]
+    apply recvDataLoop_eof frag d.size 0 ByteArray.empty r1 i1
+    rw [u1, hu]
+    simp only [ByteArray.size_extract]
+    omega
+
+theorem recvSizes_eof (frag : Frag) (l : List Nat) (hl : l.length < 2 ^ 32) (r : Recv) (hi : RInv r)
+    (p q : ByteArray) (hp : p.size < (be 4 l.length ++ encSizes l).size)
+    (hpq : p ++ q = be 4 l.length ++ encSizes l)
+    (hu : r.unread = p) : r.recvSizes frag = .error .eof := by
+  unfold Recv.recvSizes
+  simp only [ByteArray.size_append, size_be, size_encSizes] at hp
+  by_cases h4 : p.size < 4
+  · rw [recvBE_eof frag 4 r hi (by simp [readBufSize]) (by rw [hu]; exact h4)]
+  · obtain ⟨r1, e1, i1, u1, _⟩ := recvBE_any frag 4 r hi (by simp [readBufSize]) (by rw [hu]; omega)
+    rw [e1]
+    simp only
+    have hh : p.extract 0 4 = be 4 l.length := by
+      have := prefix_head p q (be 4 l.length) (encSizes l) hpq (by simp; omega)
+      simpa using this
+    rw [hu, hh, decodeBE_be, Nat.mod_eq_of_lt (by simpa using hl)]
+    apply recvSizesLoop_eof frag l.length r1 i1
+    rw [u1, hu]
+    simp only [ByteArray.size_extract]
+    omega
+
+/-- A stream that ends inside the encoding of a value: the typed receive of
+that value fails with the transport's end-of-stream error. -/
+theorem recvVal_eof (frag : Frag) (v : Val) (hv : v.Valid) (r : Recv) (hi : RInv r)
+    (p q : ByteArray) (hp : p.size < v.encode.size) (hpq : p ++ q = v.encode)
+    (hu : r.unread = p) : r.recvVal frag v.kind = .error .eof := by
+  cases v with
+  | byte b =>
+    have : r.unread.size < 1 := by rw [hu]; simpa [Val.encode] using hp
+    simp [Recv.recvVal, Val.kind, recvByte_eof frag r hi this]
+  | u16 n =>
+    have : r.unread.size < 2 := by rw [hu]; simpa [Val.encode] using hp
+    simp [Recv.recvVal, Val.kind, recvBE_eof frag 2 r hi (by simp [readBufSize]) this]
+  | u32 n =>
+    have : r.unread.size < 4 := by rw [hu]; simpa [Val.encode] using hp
+    simp [Recv.recvVal, Val.kind, recvBE_eof frag 4 r hi (by simp [readBufSize]) this]
+  | data d =>
+    simp [Recv.recvVal, Val.kind, recvData_eof frag d hv r hi p q hp hpq hu]
+  | str d =>
+    simp [Recv.recvVal, Val.kind, recvData_eof frag d hv r hi p q hp hpq hu]
+  | label n =>
+    have : r.unread.size < 16 := by rw [hu]; simpa [Val.encode] using hp
+    simp [Recv.recvVal, Val.kind, recvBE_eof frag 16 r hi (by simp [readBufSize]) this]
+  | sizes l =>
+    simp [Recv.recvVal, Val.kind, recvSizes_eof frag l hv.1 r hi p q hp hpq hu]
+
+/-- `recvAll_spec` with further receives following the matching ones. -/
+theorem recvAll_spec_append (frag : Frag) (vs : List Val) (hv : ∀ v ∈ vs, v.Valid) (ks : List Kind)
+    (r : Recv) (hi : RInv r) (tail : ByteArray) (hu : r.unread = encodeVals vs ++ tail) :
+    ∃ r', RInv r' ∧ r'.unread = tail ∧ Acct r r' ∧
+      r.recvAll frag (vs.map Val.kind ++ ks) =
+        (vs ++ (r'.recvAll frag ks).1, (r'.recvAll frag ks).2.1, (r'.recvAll frag ks).2.2) := by
+  induction vs generalizing r with
+  | nil => exact ⟨r, hi, by simpa [encodeVals] using hu, Acct.refl r, by simp⟩
+  | cons v vs ih =>
+    obtain ⟨r1, e1, i1, u1, a1⟩ := recvVal_spec frag v (hv v (by simp)) r hi (encodeVals vs ++ tail)
+      (by rw [hu, encodeVals, ByteArray.append_assoc])
+    obtain ⟨r2, i2, u2, a2, e2⟩ := ih (fun w hw => hv w (by simp [hw])) r1 i1 u1
+    refine ⟨r2, i2, u2, a1.trans a2, ?_⟩
+    simp only [List.map_cons, List.cons_append, Recv.recvAll]
+    rw [e1]
+    simp only
+    rw [e2]
+
+/-! ## Send half with transport faults -/
+
+/-- `a` is a prefix of `b` -/
+def IsPrefix (a b : ByteArray) : Prop := ∃ rem, a ++ rem = b
+
+theorem IsPrefix.refl (a : ByteArray) : IsPrefix a a := ⟨ByteArray.empty, by simp⟩
+
+theorem IsPrefix.trans {a b c : ByteArray} (h1 : IsPrefix a b) (h2 : IsPrefix b c) : IsPrefix a c := by
+  obtain ⟨r1, e1⟩ := h1
+  obtain ⟨r2, e2⟩ := h2
+  exact ⟨r1 ++ r2, by rw [← ByteArray.append_assoc, e1, e2]⟩
+
+theorem IsPrefix.append (a b : ByteArray) : IsPrefix a (a ++ b) := ⟨b, rfl⟩
+
+theorem extract_cut (h : ByteArray) (k : Nat) : h.extract 0 k ++ h.extract k h.size = h := by
+  rw [ByteArray.extract_append_extract]
+  have : min 0 k = 0 := by omega
+  rw [this, extract_all h (max k h.size) (by omega)]
+
+/-- What the writer goroutine has been given so far, as one byte string. -/
+def FSender.given (s : FSender) : ByteArray := joinB (s.handed ++ s.queue)
+
+/-- Facts about the writer side that every writer iteration preserves. -/
+structure FCore (fault : Fault) (s : FSender) : Prop where
+  clean : s.werr = false → s.wire = s.handed ∧ ∀ i, i < s.handed.length → fault i = none
+  dirty : s.werr = true → ∃ i, fault i ≠ none
+  wpre : IsPrefix (joinB s.wire) (joinB s.handed)
+
+theorem FCore_init (fault : Fault) : FCore fault FSender.init :=
+  ⟨fun _ => ⟨rfl, fun i hi => by simp [FSender.init] at hi⟩, fun h => by simp [FSender.init] at h,
+   IsPrefix.refl _⟩
+
+theorem writerStep_spec (fault : Fault) (s : FSender) (hc : FCore fault s) :
+    FCore fault (s.writerStep fault) ∧ (s.writerStep fault).given = s.given ∧
+    (s.writerStep fault).cur = s.cur ∧ (s.writerStep fault).sent = s.sent ∧
+    (s.writerStep fault).flushed = s.flushed ∧ (s.werr = true → (s.writerStep fault).werr = true) ∧
+    (s.writerStep fault).queue.length = s.queue.length - 1 ∧
+    (s.werr = true → (s.writerStep fault).wire = s.wire) := by
+  unfold FSender.writerStep
+  cases hq : s.queue with
+  | nil =>
+    simp only
+    exact ⟨hc, (by first | rfl | trivial), (by first | rfl | trivial), (by first | rfl | trivial),
+      (by first | rfl | trivial), fun h => h, by simp [hq], fun _ => (by first | rfl | trivial)⟩
+  | cons h t =>
+    simp only
+    cases hw : s.werr with
+    | true =>
+      -- the buffer is taken and returned, nothing is written
+      simp only [if_true]
+      refine ⟨⟨?_, ?_, ?_⟩, ?_, (by first | rfl | trivial), (by first | rfl | trivial),
+        (by first | rfl | trivial), fun _ => (by first | rfl | trivial), by simp, fun _ => (by first | rfl | trivial)⟩
+      · intro hf; simp at hf
+      · intro _; exact hc.dirty hw
+      · obtain ⟨rem, er⟩ := hc.wpre
+        refine ⟨rem ++ h, ?_⟩
+        show joinB s.wire ++ (rem ++ h) = joinB (s.handed ++ [h])
+        rw [joinB_append, joinB_singleton, ← ByteArray.append_assoc, er]
+      · simp [FSender.given, hq, List.append_assoc]
+    | false =>
+      simp only [Bool.false_eq_true, if_false]
+      obtain ⟨e, hn⟩ := hc.clean hw
+      have hidx : s.wire.length = s.handed.length := by rw [e]
+      cases hf : fault s.wire.length with
+      | none =>
+        simp only
+        refine ⟨⟨?_, ?_, ?_⟩, ?_, (by first | rfl | trivial), (by first | rfl | trivial),
+          (by first | rfl | trivial), fun h' => (by simp at h'), by simp,
+          fun h' => (by simp at h')⟩
+        · intro _
+          refine ⟨by show s.wire ++ [h] = s.handed ++ [h]; rw [e], ?_⟩
+          intro i hi
+          simp only [List.length_append, List.length_singleton] at hi
+          by_cases h' : i < s.handed.length
+          · exact hn i h'
+          · have : i = s.wire.length := by omega
+            rw [this, hf]
+        · intro h'; simp at h'
+        · show IsPrefix (joinB (s.wire ++ [h])) (joinB (s.handed ++ [h]))
+          rw [e]; exact IsPrefix.refl _
+        · simp [FSender.given, hq, List.append_assoc]
+      | some k =>
+        simp only
+        refine ⟨⟨?_, ?_, ?_⟩, ?_, (by first | rfl | trivial), (by first | rfl | trivial),
+          (by first | rfl | trivial), fun _ => (by first | rfl | trivial), by simp,
+          fun h' => (by simp at h')⟩
+        · intro h'; cases h'
+        · intro _; exact ⟨s.wire.length, by rw [hf]; simp⟩
+        · refine ⟨h.extract k h.size, ?_⟩
+          show joinB (s.wire ++ [h.extract 0 k]) ++ h.extract k h.size = joinB (s.handed ++ [h])
+          rw [e, joinB_append, joinB_append, joinB_singleton, joinB_singleton,
+            ByteArray.append_assoc, extract_cut]
+        · simp [FSender.given, hq, List.append_assoc]
+
+theorem writerSteps_spec' (fault : Fault) (m : Nat) (s : FSender) (hc : FCore fault s) :
+    FCore fault (s.writerSteps fault m) ∧ (s.writerSteps fault m).given = s.given ∧
+    (s.writerSteps fault m).cur = s.cur ∧ (s.writerSteps fault m).sent = s.sent ∧
+    (s.writerSteps fault m).flushed = s.flushed ∧
+    (s.werr = true → (s.writerSteps fault m).werr = true) ∧
+    (s.writerSteps fault m).queue.length = s.queue.length - m := by
+  induction m generalizing s with
+  | zero => exact ⟨hc, rfl, rfl, rfl, rfl, fun h => h, rfl⟩
+  | succ m ih =>
+    obtain ⟨c1, g1, u1, s1, f1, w1, q1, _⟩ := writerStep_spec fault s hc
+    obtain ⟨c2, g2, u2, s2, f2, w2, q2⟩ := ih _ c1
+    simp only [FSender.writerSteps]
+    exact ⟨c2, by rw [g2, g1], by rw [u2, u1], by rw [s2, s1], by rw [f2, f1],
+      fun h => w2 (w1 h), by rw [q2, q1]; omega⟩
+
+/-- Invariant while no API call has reported an error: everything accepted so
+far is `A`. -/
+structure FInv (fault : Fault) (s : FSender) (A : ByteArray) : Prop where
+  core : FCore fault s
+  acc : s.given ++ s.cur = A
+  cur_le : s.cur.size ≤ writeBufSize
+  sent_eq : s.sent = s.given.size
+
+/-- After an API call has reported an error: the writer error flag is set (for
+ever) and the wire is a prefix of `B`. -/
+structure FDead (fault : Fault) (s : FSender) (B : ByteArray) : Prop where
+  core : FCore fault s
+  werr : s.werr = true
+  pre : IsPrefix (joinB s.wire) B
+
+theorem FDead.mono {fault : Fault} {s : FSender} {B B' : ByteArray} (h : FDead fault s B)
+    (hp : IsPrefix B B') : FDead fault s B' :=
+  ⟨h.core, h.werr, h.pre.trans hp⟩
+
+theorem FInv_init (fault : Fault) : FInv fault FSender.init ByteArray.empty :=
+  ⟨FCore_init fault, by simp [FSender.init, FSender.given, joinB], by simp [FSender.init],
+   by simp [FSender.init, FSender.given, joinB]⟩
+
+theorem FDead_writerStep (fault : Fault) (s : FSender) (B : ByteArray)
+    (h : FDead fault s B) : FDead fault (s.writerStep fault) B := by
+  obtain ⟨c1, _, _, _, _, w1, _, fr⟩ := writerStep_spec fault s h.core
+  -- after a failed write nothing is written any more
+  exact ⟨c1, w1 h.werr, by rw [fr h.werr]; exact h.pre⟩
+
+theorem FDead_writerSteps (fault : Fault) (m : Nat) (s : FSender) (B : ByteArray)
+    (h : FDead fault s B) : FDead fault (s.writerSteps fault m) B := by
+  induction m generalizing s with
+  | zero => exact h
+  | succ m ih => exact ih _ (FDead_writerStep fault s B h)
+
+theorem FInv_writerSteps (fault : Fault) (m : Nat) (s : FSender) (A : ByteArray)
+    (h : FInv fault s A) : FInv fault (s.writerSteps fault m) A := by
+  obtain ⟨c, g, u, st, _, _, _⟩ := writerSteps_spec' fault m s h.core
+  exact ⟨c, by rw [g, u]; exact h.acc, by rw [u]; exact h.cur_le, by rw [st, g]; exact h.sent_eq⟩
+
+theorem handOver_spec (fault : Fault) (s : FSender) (A : ByteArray) (h : FInv fault s A) :
+    FCore fault s.handOver ∧ s.handOver.given = A ∧ s.handOver.sent = A.size ∧
+    s.handOver.cur = s.cur := by
+  refine ⟨⟨h.core.clean, h.core.dirty, h.core.wpre⟩, ?_, ?_, rfl⟩
+  · simp only [FSender.handOver, FSender.given]
+    rw [← List.append_assoc, joinB_append, joinB_singleton]
+    exact h.acc
+  · simp only [FSender.handOver]
+    rw [h.sent_eq, ← h.acc, ByteArray.size_append]
+
+theorem FCore.congr {fault : Fault} {s s' : FSender} (h : FCore fault s)
+    (e1 : s'.handed = s.handed) (e2 : s'.wire = s.wire) (e3 : s'.werr = s.werr) : FCore fault s' :=
+  ⟨by rw [e1, e2, e3]; exact h.clean, by rw [e3]; exact h.dirty, by rw [e1, e2]; exact h.wpre⟩
+
+theorem takeNext_spec (s : FSender) :
+    s.takeNext.1.handed = s.handed ∧ s.takeNext.1.wire = s.wire ∧ s.takeNext.1.werr = s.werr ∧
+    s.takeNext.1.queue = s.queue ∧ s.takeNext.1.sent = s.sent ∧ s.takeNext.2 = !s.werr ∧
+    (s.werr = false → s.takeNext.1.cur = ByteArray.empty) := by
+  unfold FSender.takeNext
+  cases s.werr <;> simp
+
+/-- `Flush`: success keeps the invariant, failure leaves a dead state whose
+wire is a prefix of what had been accepted. -/
+theorem flush_fspec (fault : Fault) (k : Nat) (s : FSender) (A : ByteArray) (h : FInv fault s A) :
+    ((s.flush fault k).2 = true → FInv fault (s.flush fault k).1 A ∧
+        ((s.flush fault k).1.cur.size = 0)) ∧
+    ((s.flush fault k).2 = false → FDead fault (s.flush fault k).1 A) := by
+  unfold FSender.flush
+  by_cases h0 : s.cur.size = 0
+  · rw [if_pos h0]
+    exact ⟨fun _ => ⟨h, h0⟩, fun hf => (by cases hf)⟩
+  · rw [if_neg h0]
+    obtain ⟨hc1, hg1, hs1, _⟩ := handOver_spec fault s A h
+    generalize max k (if s.handOver.free = 0 then 1 else 0) = K
+    obtain ⟨c2, g2, u2, st2, f2, w2, _⟩ := writerSteps_spec' fault K s.handOver hc1
+    generalize s.handOver.writerSteps fault K = s2 at *
+    obtain ⟨t1, t2, t3, t4, t5, t6, t7⟩ := takeNext_spec s2
+    have hc3 : FCore fault s2.takeNext.1 := c2.congr t1 t2 t3
+    have hg : s2.given = A := by rw [g2, hg1]
+    have hg3 : s2.takeNext.1.given = A := by
+      rw [← hg]; simp only [FSender.given, t1, t4]
+    constructor
+    · intro hok
+      rw [t6] at hok
+      have hw : s2.werr = false := by cases hw : s2.werr <;> simp [hw] at hok ⊢
+      have hcur := t7 hw
+      refine ⟨⟨hc3, ?_, ?_, ?_⟩, ?_⟩
+      · rw [hg3, hcur]; simp
+      · rw [hcur]; simp
+      · rw [t5, hg3, st2, hs1]
+      · rw [hcur]; simp
+    · intro hbad
+      rw [t6] at hbad
+      have hw : s2.werr = true := by cases hw : s2.werr <;> simp [hw] at hbad ⊢
+      refine ⟨hc3, by rw [t3]; exact hw, ?_⟩
+      obtain ⟨rem, er⟩ := hc3.wpre
+      refine ⟨rem ++ joinB s2.takeNext.1.queue, ?_⟩
+      rw [← ByteArray.append_assoc, er, ← joinB_append]
+      exact hg3
+
+theorem flush_dead (fault : Fault) (k : Nat) (s : FSender) (B : ByteArray) (h : FDead fault s B) :
+    FDead fault (s.flush fault k).1 B ∧ (s.cur.size ≠ 0 → (s.flush fault k).2 = false) := by
+  unfold FSender.flush
+  by_cases h0 : s.cur.size = 0
+  · rw [if_pos h0]
+    exact ⟨h, fun hne => absurd h0 hne⟩
+  · rw [if_neg h0]
+    have hd1 : FDead fault s.handOver B :=
+      ⟨⟨h.core.clean, h.core.dirty, h.core.wpre⟩, h.werr, h.pre⟩
+    generalize max k (if s.handOver.free = 0 then 1 else 0) = K
+    have hd2 := FDead_writerSteps fault K s.handOver B hd1
+    generalize s.handOver.writerSteps fault K = s2 at *
+    obtain ⟨t1, t2, t3, t4, t5, t6, t7⟩ := takeNext_spec s2
+    refine ⟨⟨hd2.core.congr t1 t2 t3, by rw [t3]; exact hd2.werr, ?_⟩, fun _ => ?_⟩
+    · rw [t2]; exact hd2.pre
+    · rw [t6, hd2.werr]; rfl
+
+/-- Outcome of an API call that should leave `A` accepted. -/
+def FOut (fault : Fault) (res : FSender × Bool) (A : ByteArray) : Prop :=
+  (res.2 = true → FInv fault res.1 A) ∧ (res.2 = false → FDead fault res.1 A)
+
+theorem FOut.mono {fault : Fault} {res : FSender × Bool} {A A' : ByteArray}
+    (h : res.2 = true → FInv fault res.1 A') (hd : res.2 = false → FDead fault res.1 A)
+    (hp : IsPrefix A A') : FOut fault res A' :=
+  ⟨h, fun hf => (hd hf).mono hp⟩
+
+theorem FInv.toDead {fault : Fault} {s : FSender} {A : ByteArray} (h : FInv fault s A)
+    (hw : s.werr = true) : FDead fault s A := by
+  refine ⟨h.core, hw, ?_⟩
+  obtain ⟨rem, er⟩ := h.core.wpre
+  refine ⟨rem ++ (joinB s.queue ++ s.cur), ?_⟩
+  rw [← ByteArray.append_assoc, er, ← ByteArray.append_assoc, ← joinB_append]
+  exact h.acc
+
+theorem flushS_out (fault : Fault) (sch : Sched) (s : FSender) (A : ByteArray) (h : FInv fault s A) :
+    FOut fault (s.flushS fault sch) A ∧
+    ((s.flushS fault sch).2 = true → (s.flushS fault sch).1.cur.size = 0) := by
+  obtain ⟨h1, h2⟩ := flush_fspec fault (sch s.flushed) s A h
+  exact ⟨⟨fun hok => (h1 hok).1, h2⟩, fun hok => (h1 hok).2⟩
+
+theorem reserve_out (fault : Fault) (sch : Sched) (n : Nat) (s : FSender) (A : ByteArray)
+    (h : FInv fault s A) :
+    FOut fault (s.reserve fault sch n) A ∧
+    ((s.reserve fault sch n).2 = true → n ≤ writeBufSize →
+      (s.reserve fault sch n).1.cur.size + n ≤ writeBufSize) := by
+  unfold FSender.reserve
+  split
+  · obtain ⟨h1, h2⟩ := flushS_out fault sch s A h
+    exact ⟨h1, fun hok hn => by rw [h2 hok]; omega⟩
+  · exact ⟨⟨fun _ => h, fun hf => (by cases hf)⟩, fun _ _ => by simp only; omega⟩
+
+theorem put_finv (fault : Fault) (b : ByteArray) (s : FSender) (A : ByteArray) (h : FInv fault s A)
+    (hb : s.cur.size + b.size ≤ writeBufSize) : FInv fault (s.put b) (A ++ b) := by
+  refine ⟨⟨h.core.clean, h.core.dirty, h.core.wpre⟩, ?_, ?_, h.sent_eq⟩
+  · show s.given ++ (s.cur ++ b) = A ++ b
+    rw [← ByteArray.append_assoc, h.acc]
+  · show (s.cur ++ b).size ≤ writeBufSize
+    rw [ByteArray.size_append]; exact hb
+
+theorem sendBytes_out (fault : Fault) (sch : Sched) (b : ByteArray) (hb : b.size ≤ writeBufSize)
+    (s : FSender) (A : ByteArray) (h : FInv fault s A) :
+    FOut fault (s.sendBytes fault sch b) (A ++ b) := by
+  obtain ⟨⟨r1, r2⟩, r3⟩ := reserve_out fault sch b.size s A h
+  unfold FSender.sendBytes
+  generalize s.reserve fault sch b.size = res at *
+  obtain ⟨s1, ok⟩ := res
+  cases ok with
+  | false => exact ⟨fun hf => (by cases hf), fun _ => (r2 rfl).mono (IsPrefix.append A b)⟩
+  | true => exact ⟨fun _ => put_finv fault b s1 A (r1 rfl) (r3 rfl hb), fun hf => by cases hf⟩
+
+theorem sendDataLoop_out (fault : Fault) (sch : Sched) (val : ByteArray) (off : Nat) (s : FSender)
+    (A : ByteArray) (h : FInv fault s A) (hoff : off ≤ val.size) :
+    FOut fault (s.sendDataLoop fault sch val off) (A ++ val.extract off val.size) := by
+  fun_induction FSender.sendDataLoop fault sch val off s generalizing A with
+  | case1 off s hlt s1 he =>
+    -- the conditional flush failed
+    split at he
+    · obtain ⟨⟨_, f2⟩, _⟩ := flushS_out fault sch s A h
+      rw [he] at f2
+      exact ⟨fun hf => (by cases hf), fun _ => (f2 rfl).mono (IsPrefix.append _ _)⟩
+    · cases he
+  | case2 off s hlt s1 he n hn =>
+    -- unreachable: room after a successful conditional flush
+    exfalso
+    have : s1.cur.size < writeBufSize := by
+      split at he
+      · obtain ⟨_, f3⟩ := flushS_out fault sch s A h
+        rw [he] at f3
+        have := f3 rfl
+        simp only at this
+        rw [this]; simp [writeBufSize]
+      · cases he; omega
+    simp only [n] at hn
+    omega
+  | case3 off s hlt s1 he n hn ih =>
+    have h1 : FInv fault s1 A := by
+      split at he
+      · obtain ⟨⟨f1, _⟩, _⟩ := flushS_out fault sch s A h
+        rw [he] at f1
+        exact f1 rfl
+      · cases he; exact h
+    have hsz : (val.extract off (off + n)).size = n := by
+      simp only [ByteArray.size_extract]; simp only [n]; omega
+    have hput := put_finv fault (val.extract off (off + n)) s1 A h1
+      (by rw [hsz]; have := h1.cur_le; simp only [n]; omega)
+    have := ih _ hput (by simp only [n]; omega)
+    rw [ByteArray.append_assoc, ← extract_split val off (off + n) val.size (by omega)
+      (by simp only [n]; omega)] at this
+    exact this
+  | case4 off s hlt =>
+    have : val.extract off val.size = ByteArray.empty := by
+      rw [ByteArray.extract_eq_empty_iff]; omega
+    rw [this, ByteArray.append_empty]
+    exact ⟨fun _ => h, fun hf => by cases hf⟩
+
+theorem sendData_out (fault : Fault) (sch : Sched) (d : ByteArray) (s : FSender) (A : ByteArray)
+    (h : FInv fault s A) : FOut fault (s.sendData fault sch d) (A ++ (be 4 d.size ++ d)) := by
+  obtain ⟨b1, b2⟩ := sendBytes_out fault sch (be 4 d.size) (by simp [writeBufSize]) s A h
+  unfold FSender.sendData
+  generalize s.sendBytes fault sch (be 4 d.size) = res at *
+  obtain ⟨s1, ok⟩ := res
+  cases ok with
+  | false =>
+    exact ⟨fun hf => (by cases hf), fun _ => (b2 rfl).mono
+      ⟨d, by rw [ByteArray.append_assoc]⟩⟩
+  | true =>
+    have := sendDataLoop_out fault sch d 0 s1 _ (b1 rfl) (Nat.zero_le _)
+    rw [ByteArray.extract_zero_size, ByteArray.append_assoc] at this
+    exact this
+
+theorem sendSizesLoop_out (fault : Fault) (sch : Sched) (l : List Nat) (s : FSender) (A : ByteArray)
+    (h : FInv fault s A) : FOut fault (s.sendSizesLoop fault sch l) (A ++ encSizes l) := by
+  induction l generalizing s A with
+  | nil => simp only [FSender.sendSizesLoop, encSizes, ByteArray.append_empty]
+           exact ⟨fun _ => h, fun hf => by cases hf⟩
+  | cons x xs ih =>
+    obtain ⟨b1, b2⟩ := sendBytes_out fault sch (be 4 x) (by simp [writeBufSize]) s A h
+    simp only [FSender.sendSizesLoop, encSizes]
+    generalize s.sendBytes fault sch (be 4 x) = res at *
+    obtain ⟨s1, ok⟩ := res
+    cases ok with
+    | false =>
+      exact ⟨fun hf => (by cases hf), fun _ => (b2 rfl).mono
+        ⟨encSizes xs, by rw [ByteArray.append_assoc]⟩⟩
+    | true =>
+      have := ih s1 _ (b1 rfl)
+      rw [ByteArray.append_assoc] at this
+      exact this
+
+theorem sendVal_out (fault : Fault) (sch : Sched) (v : Val) (s : FSender) (A : ByteArray)
+    (h : FInv fault s A) : FOut fault (s.sendVal fault sch v) (A ++ v.encode) := by
+  cases v with
+  | byte b =>
+    simp only [FSender.sendVal, Val.encode]
+    exact sendBytes_out fault sch _ (by simp [writeBufSize]) s A h
+  | u16 n =>
+    simp only [FSender.sendVal, Val.encode]
+    exact sendBytes_out fault sch _ (by simp [writeBufSize]) s A h
+  | u32 n =>
+    simp only [FSender.sendVal, Val.encode]
+    exact sendBytes_out fault sch _ (by simp [writeBufSize]) s A h
+  | data d =>
+    simp only [FSender.sendVal, Val.encode]
+    exact sendData_out fault sch d s A h
+  | str d =>
+    simp only [FSender.sendVal, Val.encode]
+    exact sendData_out fault sch d s A h
+  | label n =>
+    simp only [FSender.sendVal, Val.encode]
+    exact sendBytes_out fault sch _ (by simp [writeBufSize]) s A h
+  | sizes l =>
+    obtain ⟨b1, b2⟩ := sendBytes_out fault sch (be 4 l.length) (by simp [writeBufSize]) s A h
+    simp only [FSender.sendVal, Val.encode]
+    generalize s.sendBytes fault sch (be 4 l.length) = res at *
+    obtain ⟨s1, ok⟩ := res
+    cases ok with
+    | false =>
+      exact ⟨fun hf => (by cases hf), fun _ => (b2 rfl).mono
+        ⟨encSizes l, by rw [ByteArray.append_assoc]⟩⟩
+    | true =>
+      have := sendSizesLoop_out fault sch l s1 _ (b1 rfl)
+      rw [ByteArray.append_assoc] at this
+      exact this
+
+theorem step_out (fault : Fault) (sch : Sched) (o : Op) (s : FSender) (A : ByteArray)
+    (h : FInv fault s A) : FOut fault (s.step fault sch o) (A ++ o.encode) := by
+  cases o with
+  | send v => exact sendVal_out fault sch v s A h
+  | flush =>
+    simp only [FSender.step, Op.encode, ByteArray.append_empty]
+    exact (flushS_out fault sch s A h).1
+  | needSpace n =>
+    simp only [FSender.step, Op.encode, ByteArray.append_empty]
+    exact (reserve_out fault sch n s A h).1
+
+theorem run_out (fault : Fault) (sch : Sched) (ops : List Op) (s : FSender) (A : ByteArray)
+    (h : FInv fault s A) :
+    ((s.run fault sch ops).2.2 = true → FInv fault (s.run fault sch ops).1 (A ++ encodeAll ops)) ∧
+    ((s.run fault sch ops).2.2 = false → FDead fault (s.run fault sch ops).1 (A ++ encodeAll ops)) := by
+  induction ops generalizing s A with
+  | nil => simp only [FSender.run, encodeAll, ByteArray.append_empty]
+           exact ⟨fun _ => h, fun hf => by cases hf⟩
+  | cons o os ih =>
+    obtain ⟨o1, o2⟩ := step_out fault sch o s A h
+    simp only [FSender.run, encodeAll]
+    generalize s.step fault sch o = res at *
+    obtain ⟨s1, ok⟩ := res
+    cases ok with
+    | false =>
+      simp only
+      exact ⟨fun hf => (by cases hf), fun _ => (o2 rfl).mono
+        ⟨encodeAll os, by rw [ByteArray.append_assoc]⟩⟩
+    | true =>
+      simp only
+      have := ih s1 _ (o1 rfl)
+      rw [ByteArray.append_assoc] at this
+      exact this
+
+theorem close_finv (fault : Fault) (sch : Sched) (s : FSender) (T : ByteArray) (h : FInv fault s T) :
+    ((s.close fault sch).2 = true → FInv fault (s.close fault sch).1 T ∧
+        joinB (s.close fault sch).1.wire = T ∧ (s.close fault sch).1.queue = [] ∧
+        (s.close fault sch).1.werr = false ∧ (s.close fault sch).1.sent = T.size) ∧
+    ((s.close fault sch).2 = false → FDead fault (s.close fault sch).1 T) := by
+  obtain ⟨⟨f1, f2⟩, f3⟩ := flushS_out fault sch s T h
+  unfold FSender.close
+  generalize s.flushS fault sch = res at *
+  obtain ⟨s1, ok⟩ := res
+  cases ok with
+  | false => exact ⟨fun hf => (by cases hf), fun _ => f2 rfl⟩
+  | true =>
+    simp only
+    have hi1 := f1 rfl
+    have hcur := f3 rfl
+    simp only at hcur
+    have hi2 := FInv_writerSteps fault s1.queue.length s1 T hi1
+    obtain ⟨_, _, u, _, _, _, q⟩ := writerSteps_spec' fault s1.queue.length s1 hi1.core
+    generalize s1.writerSteps fault s1.queue.length = s2 at *
+    have hq : s2.queue = [] := List.eq_nil_of_length_eq_zero (by omega)
+    constructor
+    · intro hok
+      have hw : s2.werr = false := by cases hw : s2.werr <;> simp [hw] at hok ⊢
+      obtain ⟨e, _⟩ := hi2.core.clean hw
+      have hc : s2.cur = ByteArray.empty := by
+        apply ByteArray.size_eq_zero_iff.mp
+        rw [u]; exact hcur
+      have hacc := hi2.acc
+      simp only [FSender.given, hq, List.append_nil, hc, ByteArray.append_empty] at hacc
+      refine ⟨hi2, by rw [e]; exact hacc, hq, hw, ?_⟩
+      rw [hi2.sent_eq]
+      simp only [FSender.given, hq, List.append_nil]
+      rw [hacc]
+    · intro hbad
+      have hw : s2.werr = true := by cases hw : s2.werr <;> simp [hw] at hbad ⊢
+      exact hi2.toDead hw
+
+theorem close_dead (fault : Fault) (sch : Sched) (s : FSender) (B : ByteArray) (h : FDead fault s B) :
+    (s.close fault sch).2 = false ∧ FDead fault (s.close fault sch).1 B := by
+  obtain ⟨d1, _⟩ := flush_dead fault (sch s.flushed) s B h
+  unfold FSender.close
+  have : s.flushS fault sch = s.flush fault (sch s.flushed) := rfl
+  rw [this]
+  generalize s.flush fault (sch s.flushed) = res at *
+  obtain ⟨s1, ok⟩ := res
+  cases ok with
+  | false => exact ⟨rfl, d1⟩
+  | true =>
+    simp only
+    have d2 := FDead_writerSteps fault s1.queue.length s1 B d1
+    exact ⟨by rw [d2.werr]; rfl, d2⟩
+
+theorem close_reports (fault : Fault) (sch : Sched) (s : FSender) :
+    (s.close fault sch).1.werr = true → (s.close fault sch).2 = false := by
+  unfold FSender.close
+  generalize s.flushS fault sch = res
+  obtain ⟨s1, ok⟩ := res
+  cases ok with
+  | false => intro _; rfl
+  | true => simp only; intro hw; rw [hw]; rfl
+
+theorem FInv.wire_prefix {fault : Fault} {s : FSender} {T : ByteArray} (h : FInv fault s T) :
+    IsPrefix (joinB s.wire) T := by
+  obtain ⟨rem, er⟩ := h.core.wpre
+  refine ⟨rem ++ (joinB s.queue ++ s.cur), ?_⟩
+  rw [← ByteArray.append_assoc, er, ← ByteArray.append_assoc, ← joinB_append]
+  exact h.acc
+
 end Mpc.Conn
